@@ -10,6 +10,7 @@ from .common import table
 from .facts import op_place, op_local
 
 CRATES = {"gluon_vm", "gluon", "gluon_base", "gluon_c_api", "gluon_completion", "gluon_doc", "gluon_format", "gluon_check"}
+THOROUGH_CONFIGS = ["default", "nodefault"]  # thorough also analyses the default-feature and the no-default-features builds
 
 TRACE = "gluon_vm::gc::Trace"
 GC_TY = "&mut gluon_vm::gc::Gc"
